@@ -3,6 +3,7 @@
 import os, random, sys
 sys.path.insert(0, os.path.dirname(os.path.abspath(__file__)))
 import vlib, scen, lcheck
+import c15
 
 PID = "C05"
 FRESH = ["badsig", "wrongkey", "missingsig", "nosig", "noext", "emptyext", "saltonlyext", "extrasig", "wrongchain", "saltearly", "saltlate", "rcdswap", "content"]
@@ -86,6 +87,10 @@ def family(seed, tier):
         s.grade(h)
         s.tip(h)
         docs.append((s.s["name"], s.doc()))
+    # the only debits nobody signs are the protocol's scheduled adjustments: exactly those addresses, at exactly those heights
+    z = c15.chain(seed + 11, 0, tier)
+    z.s["name"] = "c05-scheduled"
+    docs.append((z.s["name"], z.doc()))
     return docs
 
 
